@@ -59,13 +59,22 @@ def run(pid, tier, replay):
             raise vlib.Inconclusive("simulation produced no histories:\n" + s.out[-2000:])
         scripts += sim
         scripts += attack
-        sp = os.path.join(work, "scripts.json")
-        with open(sp, "w") as f:
-            json.dump(scripts, f)
+        # one driver process per 8000 scripts: a disk-backed file that is removed without having been finalized keeps its
+        # descriptor open in the library (fileDisk.Remove only unlinks; observation outside the listed properties, DESIGN 12.7),
+        # so a single process would run out of descriptors in the thorough tier
         tr1 = os.path.join(work, "t1.ndjson")
-        rc, out, dt = vlib.drive(binary, ["storage-replay", "-scripts", sp, "-out", tr1, "-unit", "1"], timeout=1800)
-        if rc != 0:
-            raise vlib.Inconclusive("storage-replay failed: " + out[-2000:])
+        with open(tr1, "w") as g:
+            for b in range(0, len(scripts), 8000):
+                sp = os.path.join(work, "scripts%d.json" % b)
+                with open(sp, "w") as f:
+                    json.dump(scripts[b:b + 8000], f)
+                tb = os.path.join(work, "t1_%d.ndjson" % b)
+                rc, out, dt = vlib.drive(binary, ["storage-replay", "-scripts", sp, "-out", tb, "-unit", "1"], timeout=1800)
+                if rc != 0:
+                    raise vlib.Inconclusive("storage-replay failed: " + out[-2000:])
+                with open(tb) as f:
+                    shutil.copyfileobj(f, g)
+                os.remove(tb)
 
         # 3. random large scripts (same discipline), block symbols
         tr2 = os.path.join(work, "t2.ndjson")
